@@ -315,7 +315,18 @@ func apply[V any](c *cfg[V], op Op, obj seqLike[V], opnd col.Sequential[V], rank
 	return
 }
 
+// guard is an operand of a constructor that must stay independent of the constructed sequence
+type guard[V any] struct {
+	seq  col.Sequential[V]
+	want []V
+}
+
 func construct[V any](c *cfg[V], op Op) (obj seqLike[V], m []V, out rt.Outcome) {
+	obj, m, _, out = constructG(c, op)
+	return
+}
+
+func constructG[V any](c *cfg[V], op Op) (obj seqLike[V], m []V, guards []guard[V], out rt.Outcome) {
 	mk := func(k int) []V {
 		v := make([]V, k)
 		for i := range v {
@@ -348,11 +359,15 @@ func construct[V any](c *cfg[V], op Op) (obj seqLike[V], m []V, out rt.Outcome) 
 			obj = L.MakeFromArray(mk(op.I))
 		case "MakeFromSequence":
 			m = mk(op.I)
-			obj = L.MakeFromSequence(col.Array[V](common.N()).MakeFromArray(mk(op.I)))
+			src := col.Array[V](common.N()).MakeFromArray(mk(op.I))
+			obj = L.MakeFromSequence(src)
+			guards = append(guards, guard[V]{src, mk(op.I)})
 		case "Concatenate":
 			a, b := mk(op.I), mk(op.J)
 			m = append(append([]V(nil), a...), b...)
-			obj = L.Concatenate(L.MakeFromArray(a), L.MakeFromArray(b))
+			la, lb := L.MakeFromArray(a), L.MakeFromArray(b)
+			obj = L.Concatenate(la, lb)
+			guards = append(guards, guard[V]{la, a}, guard[V]{lb, b})
 		}
 	})
 	return
@@ -536,7 +551,7 @@ func run[V any](r *engine.Rec, c *cfg[V], maxN int) {
 			return seqx.Step{Key: dump.Dump(obj), Size: len(m), Expand: true}
 		}
 		// rebuild
-		obj, m, out := construct(c, path[0])
+		obj, m, guards, out := constructG(c, path[0])
 		if out.Panicked {
 			return seqx.Step{}
 		}
@@ -663,6 +678,11 @@ func run[V any](r *engine.Rec, c *cfg[V], maxN int) {
 		}
 		if it.HasNext() {
 			return viol(class+" iterator longer than contents", fmt.Sprint(ns))
+		}
+		for gi, g := range guards {
+			if !eqSlices(g.seq.AsArray(), g.want) {
+				return viol(class+" changes an operand of the constructor "+path[0].K+" (shared storage)", fmt.Sprintf("operand %d: %v want %v", gi, g.seq.AsArray(), g.want))
+			}
 		}
 		if len(r.Samples) < 2 && len(path) >= 2 {
 			r.Sample(map[string]any{"search": name, "path": fmt.Sprint(path), "op": op.String(), "state_after": fmt.Sprint(ns)})
